@@ -117,8 +117,11 @@ func (server *Server) Rename(conn *redis.Conn, key string, newkey string, opt re
 		return nil, err
 	}
 	if opt.NX {
-		if _, ok := db.GetRecord(newkey); ok {
-			return redis.NewIntegerMessage(0), nil
+		// A missing source key is an error even if the destination exists.
+		if _, ok := db.GetRecord(key); ok {
+			if _, ok := db.GetRecord(newkey); ok {
+				return redis.NewIntegerMessage(0), nil
+			}
 		}
 	}
 	err = db.RenameRecord(key, newkey)
